@@ -82,6 +82,13 @@ Theorem C04_ser_check_sound : forall S0 h,
 Proof. exact ser_check_sound. Qed.
 Print Assumptions C04_ser_check_sound.
 
+(* and it accepts every history of the model: a rejected recorded history means the
+   implementation left the model *)
+Theorem C04_ser_check_complete_on_model : forall S0 tr s,
+  steps (init S0) tr s -> ser_check S0 (hist_of tr) = true.
+Proof. exact ser_check_complete_lts. Qed.
+Print Assumptions C04_ser_check_complete_on_model.
+
 (* the methods of pkg/transaction still have the structure the model transcribes (facts
    regenerated from the Go source by gofacts on every run) *)
 Theorem C04_code_facts : code_facts.
